@@ -277,3 +277,59 @@ def wal_confinement(ctx, p):
                          'LogReader::new is called only by Log::read_next', required=['log::Log::read_next'])
     lib.callers_confined(ctx, p + 'k read_next-callers', F, ['log::Log::read_next'], {'db::DbInner::enact_logs'},
                          'Log::read_next is called only by DbInner::enact_logs', required=['db::DbInner::enact_logs'])
+
+
+def queue_discipline(ctx, p):
+    """FIFO discipline of the pipeline queues: producers push at the back, consumers take from the front."""
+    F = ctx.F
+    import re
+    ALLOWED = re.compile(r'(VecDeque.*::(push_back|pop_front|len|is_empty|front|front_mut|iter|drain|make_contiguous|new|default|extend)$|Deref|RwLock.*::(read|write)$|Mutex.*::lock$|IntoIterator|Extend.*>::extend$|Default>::default$|Index.*::index$)')
+    for field in ('.Log.read_queue', '.Log.cleanup_queue', '.Log.replay_queue', '.CommitQueue.commits'):
+        bad = []
+        n = 0
+        for b in F.bodies.values():
+            for bi, t in b.all_calls():
+                if not t['a']:
+                    continue
+                nm = t.get('r') or t.get('f') or ''
+                if 'VecDeque' not in nm:
+                    continue
+                if field in lib.receiver_fields(b, t, 0):
+                    n += 1
+                    if not ALLOWED.search(nm):
+                        bad.append('%s calls %s at %s' % (b.path, nm, b.loc(bi)))
+                    if nm.endswith('::drain'):
+                        # the range must start at 0 (front)
+                        sl = backward_slice(b, [op_place(t['a'][1])]) if len(t['a']) > 1 and op_place(t['a'][1]) else None
+                        aggs = [x for l in (sl.locals if sl else []) for (b2, si, kind, x) in b.defs().get(l, []) if kind == 'assign' and x['r']['k'] == 'agg' and 'Range' in x['r']['ak']]
+                        okr = any((x['r']['ak'].endswith('RangeFull')) or (x['r']['a'] and x['r']['a'][0].get('i') == 0 and 'RangeFrom' in x['r']['ak']) or
+                                  (x['r']['a'] and x['r']['a'][0].get('i') == 0) for x in aggs)
+                        if not okr:
+                            bad.append('%s drains %s from a non-zero start at %s' % (b.path, field, b.loc(bi)))
+        ctx.ob(p + 'a fifo %s' % field, 'K4-confinement', '-', 'the queue %s is used strictly FIFO (push_back / pop_front / drain from index 0); no split_off, pop_back, push_front, insert, sort' % field,
+               not bad and n >= 2, '; '.join(bad[:3]) or '%d uses' % n)
+
+
+
+
+def replay_order(ctx, p):
+    F = ctx.F
+    # replay order: by first record id
+    lo = ctx.body('log::Log::open')
+    if lo:
+        srt = [(bi, t) for bi, t in lo.calls() if call_matches(t, ['re:slice::<impl \\[T\\]>::sort', 're:::sort(_unstable)?(_by(_key)?)?$'])]
+        ok = False
+        det = 'no sort of the replay queue'
+        for bi, t in srt:
+            cls = lib.closure_operands(lo, t)
+            for c in cls:
+                cb = F.body(c)
+                flds = backward_slice(cb, [0]).fields
+                ok = '.#1' in flds and '.#0' not in flds and '.#2' not in flds
+                det = 'sort key closure returns a value derived from %s' % sorted(flds)
+        ctx.ob(p + 'j replay-in-record-id-order', 'K3-guard', lo.path, 'log files found at open are replayed ordered by the id of their first record (tuple field 1), not by file number', ok, det)
+        rmv = lo.call_sites('std::fs::remove_file')
+        for s in rmv:
+            lib.cond_guarded(ctx, p + 'k only-empty-logs-deleted-at-open', lo, s, 'a log file is deleted at open only depending on open_log_file reporting no first record', calls=['log::Log::open_log_file'])
+
+
